@@ -1,8 +1,8 @@
 (* C03 — the wire format interoperates with an independent SAE J1939-21 implementation (Sae21.v).
    Each generated builder and each generated field extraction is tied to the independent layout separately. *)
-From J1939 Require Import Base CodecGlue Model21 Sae21.
-From J1939.gen Require Import Codec Tp21Gen CaGen.
-From J1939P Require Import CodecProofs Flat Tp21Seg Tp21Resp Tp21Orig WireProofs.
+From J1939 Require Import Base CodecGlue Model21 Model22 Sae21 Sae22.
+From J1939.gen Require Import Codec Tp21Gen CaGen Tp22Gen.
+From J1939P Require Import CodecProofs Flat Tp21Seg Tp21Resp Tp21Orig WireProofs Net22Proofs WireProofs22.
 
 Theorem C03_spec_roundtrip : forall m, cm_wf m -> dec_cm (enc_cm m) = Some m.
 Proof. exact stack_frames_decode. Qed.
@@ -66,3 +66,122 @@ Print Assumptions C03_identifier_layout.
 (* T03.4/T03.5 — conformance of the two roles against ANY legal choice of the peer is C01's role theorems:
    C01_window_burst (every grant g >= 1, any holds: C01/C09 cts_hold) and C01_responder_dt_phase (any RTS limit,
    any arrival times); restated here only by reference. *)
+
+(* ------------------------------------------------------------------------------------------------------------------
+   J1939-22 (CAN FD): the same against the independent layout of Sae22.v (written from the standard's tables with
+   / and mod, with a decoder and a reassembler of its own). *)
+Theorem C03_fd_spec_roundtrip : forall m, cm22_wf m -> dec_cm22 (enc_cm22 m) = Some m.
+Proof. exact dec_enc_cm22. Qed.
+Print Assumptions C03_fd_spec_roundtrip.
+
+Theorem C03_fd_rts_is_spec : forall prio sa da s pgn size nseg limit,
+  0 <= prio < 8 -> 0 <= da < 256 -> 0 <= sa < 256 -> 0 <= s < 16 -> 0 <= limit < 256 ->
+  tp22_rts prio sa da s pgn size nseg limit =
+  {| f_id := sae_id prio (sae_fd_cm_pgn da) sa; f_ext := true; f_fd := true; f_data := enc_cm22 (RTS22 s size nseg limit pgn) |}.
+Proof. exact fd_rts_is_spec. Qed.
+Print Assumptions C03_fd_rts_is_spec.
+Theorem C03_fd_cts_is_spec : forall sa da s count next pgn,
+  0 <= da < 256 -> 0 <= sa < 256 -> 0 <= s < 16 -> 0 <= count < 256 ->
+  tp22_cts sa da s count next pgn =
+  {| f_id := sae_id 7 (sae_fd_cm_pgn da) sa; f_ext := true; f_fd := true; f_data := enc_cm22 (CTS22 s next count pgn) |}.
+Proof. exact fd_cts_is_spec. Qed.
+Print Assumptions C03_fd_cts_is_spec.
+Theorem C03_fd_eom_status_is_spec : forall sa da s size nseg pgn,
+  0 <= da < 256 -> 0 <= sa < 256 -> 0 <= s < 16 ->
+  tp22_eom_status sa da s size nseg pgn =
+  {| f_id := sae_id 7 (sae_fd_cm_pgn da) sa; f_ext := true; f_fd := true; f_data := enc_cm22 (EOMS22 s size nseg pgn) |}.
+Proof. exact fd_eom_status_is_spec. Qed.
+Print Assumptions C03_fd_eom_status_is_spec.
+Theorem C03_fd_eom_ack_is_spec : forall sa da s size nseg pgn,
+  0 <= da < 256 -> 0 <= sa < 256 -> 0 <= s < 16 ->
+  tp22_eom_ack sa da s size nseg pgn =
+  {| f_id := sae_id 7 (sae_fd_cm_pgn da) sa; f_ext := true; f_fd := true; f_data := enc_cm22 (EOMA22 s size nseg pgn) |}.
+Proof. exact fd_eom_ack_is_spec. Qed.
+Print Assumptions C03_fd_eom_ack_is_spec.
+Theorem C03_fd_bam_is_spec : forall prio sa s pgn size nseg,
+  0 <= prio < 8 -> 0 <= sa < 256 -> 0 <= s < 16 ->
+  tp22_bam prio sa s pgn size nseg =
+  {| f_id := sae_id prio (sae_fd_cm_pgn 255) sa; f_ext := true; f_fd := true; f_data := enc_cm22 (BAM22 s size nseg pgn) |}.
+Proof. exact fd_bam_is_spec. Qed.
+Print Assumptions C03_fd_bam_is_spec.
+Theorem C03_fd_abort_is_spec : forall sa da s reason pgn,
+  0 <= da < 256 -> 0 <= sa < 256 -> 0 <= s < 16 -> 0 <= reason < 256 ->
+  tp22_abort sa da s reason pgn =
+  {| f_id := sae_id 7 (sae_fd_cm_pgn da) sa; f_ext := true; f_fd := true; f_data := enc_cm22 (ABORT22 s reason pgn) |}.
+Proof. exact fd_abort_is_spec. Qed.
+Print Assumptions C03_fd_abort_is_spec.
+
+(* the generated CAN FD length table is "the least legal length that holds n bytes" *)
+Theorem C03_fd_length_table_is_least_legal : forall i : nat, (i <= 64)%nat ->
+  (fd_len i = Some (fd_fit (Z.of_nat i))) /\ (Z.of_nat i <= fd_fit (Z.of_nat i) <= 64).
+Proof. intros i H. split; [exact (fd_len_is_fit i H)|apply fd_fit_ge; lia]. Qed.
+Print Assumptions C03_fd_length_table_is_least_legal.
+
+(* data frames: session nibble, 24-bit 1-based segment number, the segment, 0xFF up to the next legal CAN FD length *)
+Theorem C03_fd_dt_is_spec : forall sa da s k seg,
+  0 <= da < 256 -> 0 <= sa < 256 -> 0 <= s < 16 -> (length seg <= 60)%nat ->
+  exists seg', dt_frame sa da s k seg =
+    Some ({| f_id := sae_id 7 (sae_fd_dt_pgn da) sa; f_ext := true; f_fd := true; f_data := enc_dt22 s k seg |}, seg').
+Proof. exact fd_dt_is_spec. Qed.
+Print Assumptions C03_fd_dt_is_spec.
+
+Theorem C03_fd_extraction_of_spec_frames : forall m, cm22_wf m ->
+  let d := enc_cm22 m in
+  length d = 12%nat /\
+  match m with
+  | RTS22 s sz n l p => tp22_cm_control_byte d = tp22_ctl_RTS /\ tp22_cm_session_num d = s /\ tp22_cm_message_size d = sz /\
+                        tp22_cm_segment_num d = n /\ byte_at d 7 = l /\ tp22_cm_pgn d = p
+  | CTS22 s x c p => tp22_cm_control_byte d = tp22_ctl_CTS /\ tp22_cm_session_num d = s /\ tp22_cm_segment_num d = x /\
+                     byte_at d 7 = c /\ tp22_cm_pgn d = p
+  | EOMS22 s sz n p => tp22_cm_control_byte d = tp22_ctl_EOM_STATUS /\ tp22_cm_session_num d = s /\
+                       tp22_cm_message_size d = sz /\ tp22_cm_segment_num d = n /\ tp22_cm_pgn d = p
+  | EOMA22 s sz n p => tp22_cm_control_byte d = tp22_ctl_EOM_ACK /\ tp22_cm_session_num d = s /\
+                       tp22_cm_message_size d = sz /\ tp22_cm_segment_num d = n /\ tp22_cm_pgn d = p
+  | BAM22 s sz n p => tp22_cm_control_byte d = tp22_ctl_BAM /\ tp22_cm_session_num d = s /\
+                      tp22_cm_message_size d = sz /\ tp22_cm_segment_num d = n /\ tp22_cm_pgn d = p
+  | ABORT22 s r p => tp22_cm_control_byte d = tp22_ctl_ABORT /\ tp22_cm_session_num d = s /\ byte_at d 8 = r /\
+                     tp22_cm_pgn d = p
+  end.
+Proof. exact fd_extraction_of_spec_frames. Qed.
+Print Assumptions C03_fd_extraction_of_spec_frames.
+
+Theorem C03_fd_dt_extraction_of_spec_frames : forall s k seg, 0 <= s < 16 -> r24 k ->
+  let d := enc_dt22 s k seg in
+  tp22_dt_dtfi d = 0 /\ tp22_dt_session_num d = s /\ tp22_dt_segment_num d = k.
+Proof. exact fd_dt_extraction_of_spec_frames. Qed.
+Print Assumptions C03_fd_dt_extraction_of_spec_frames.
+
+(* the independent receiver reassembles the stack's data frames of ANY message to exactly that message *)
+Theorem C03_fd_data_frames_reassemble : forall s p,
+  0 <= s < 16 -> (0 < length p)%nat -> Z.of_nat (length p) < 16777216 ->
+  let ns := ((length p + 59) / 60)%nat in
+  reassemble22 s (len p) (map (fun k => enc_dt22 s (Z.of_nat k + 1) (Net22Proofs.row p k)) (seq 0 ns)) = Some p.
+Proof. exact fd_data_frames_reassemble. Qed.
+Print Assumptions C03_fd_data_frames_reassemble.
+
+(* T03.4 (FD) end to end: the wire of the closed loop of two FD model nodes (C02_closed_loop_delivers), read by the
+   independent receiver: RTS announcing (size, segments, limit, PGN), data frames that reassemble to p, the
+   end-of-message status with the same figures; every identifier is the J1939 layout; and p is delivered. *)
+Theorem C03_fd_closed_loop_wire_is_spec : forall prio sa dest dp pf p t0 A0 B0,
+  0 <= prio < 8 -> 0 <= sa < 255 -> 0 <= dest < 255 -> 0 <= pf < 240 -> 0 <= dp < 2 -> 60 < len p < 16777216 -> 0 < t0 ->
+  f_snd A0 = [] /\ f_rcv A0 = [] /\ f_mpg A0 = [] /\ n_timers (base A0) = [] /\ n_cmdt_iv (base A0) = None /\
+    accepts (base A0) sa = true /\ 1 <= n_maxp (base A0) < 256 /\ f_rts A0 = repeat true tp22_pool_rts ->
+  f_snd B0 = [] /\ f_rcv B0 = [] /\ f_mpg B0 = [] /\ n_timers (base B0) = [] /\ accepts (base B0) dest = true /\ 1 <= n_maxp (base B0) ->
+  let pv := dp * 65536 + pf * 256 in
+  let ns := ((length p + 59) / 60)%nat in
+  let lim := Z.min (n_maxp (base A0)) (Z.of_nat ns) in
+  exists j rts dts eoms, let s := Net22.steps22 j (Net22.net22_send (Net22.net22_0 A0 B0 t0) dp pf dest prio sa p) in
+    Net22.evb2 s = deliveries (base B0) 7 pv sa dest p /\
+    Net22.wab2 s = rts :: dts ++ [eoms] /\
+    f_id rts = sae_id prio (sae_fd_cm_pgn dest) sa /\ dec_cm22 (f_data rts) = Some (RTS22 0 (len p) (Z.of_nat ns) lim pv) /\
+    Forall (fun fr => f_id fr = sae_id 7 (sae_fd_dt_pgn dest) sa /\ f_ext fr = true /\ f_fd fr = true) dts /\
+    reassemble22 0 (len p) (map f_data dts) = Some p /\
+    f_id eoms = sae_id 7 (sae_fd_cm_pgn dest) sa /\ dec_cm22 (f_data eoms) = Some (EOMS22 0 (len p) (Z.of_nat ns) pv).
+Proof. exact closed_loop22_wire_is_spec. Qed.
+Print Assumptions C03_fd_closed_loop_wire_is_spec.
+
+Example C03_fd_spec_nonvacuous :
+  enc_cm22 (RTS22 3 1000 17 5 61184) = [48; 232; 3; 0; 17; 0; 0; 5; 0; 0; 239; 0] /\
+  enc_dt22 3 17 [1; 2; 3; 4; 5] = [48; 17; 0; 0; 1; 2; 3; 4; 5; 255; 255; 255] /\
+  reassemble22 3 5 [enc_dt22 3 1 [1; 2; 3; 4; 5]] = Some [1; 2; 3; 4; 5].
+Proof. vm_compute. repeat split. Qed.
